@@ -316,9 +316,17 @@ pub fn run(case: &J) -> J {
     if case.get("kind").and_then(|k| k.as_str()) == Some("table") {
         return json!({"compile": "table"});
     }
-    let mut pr = Printer { out: String::new(), spans: vec![] };
-    let mut pos = vec![];
-    pr.list(&case["ast"], &mut pos, 0, "\n");
+    // a structurally broken AST (the shrinker produces them) is answered, not crashed on
+    let printed = std::panic::catch_unwind(|| {
+        let mut pr = Printer { out: String::new(), spans: vec![] };
+        let mut pos = vec![];
+        pr.list(&case["ast"], &mut pos, 0, "\n");
+        pr
+    });
+    let pr = match printed {
+        Ok(pr) => pr,
+        Err(_) => return json!({"compile": "bad_case"}),
+    };
     let src = pr.out.clone();
     let res = match compile(&src) {
         Ok(r) => r,
